@@ -7,6 +7,8 @@ import (
 	"math/rand"
 	"net"
 	"strings"
+	"sync"
+	"sync/atomic"
 	"testing"
 
 	"verif.local/kit"
@@ -312,4 +314,270 @@ func minInt(a, b int) int {
 		return a
 	}
 	return b
+}
+
+// c12WithClient returns the request shape as asked by the given client (address given by
+// the connection or by X-Real-IP).
+func c12WithClient(shape gReq, ip string, viaHeader bool) gReq {
+	q := shape
+	q.Headers = append([][2]string{}, shape.Headers...)
+	if viaHeader {
+		q.Headers = append(q.Headers, [2]string{"X-Real-Ip", ip})
+		q.RemoteAddr = "127.0.0.1:1"
+	} else {
+		q.RemoteAddr = net.JoinHostPort(ip, "4711")
+	}
+	return q
+}
+
+// TestVerif_C12_Concurrent: K8 ("any mix of clients") as concurrent histories: several client
+// goroutines with different addresses ask the cached server for the same host/method/path at
+// the same time; each single response must be the one the cache-less twin gives that client.
+func TestVerif_C12_Concurrent(t *testing.T) {
+	r := kit.Start(t, "C12")
+	defer r.Finish()
+	r.Rule("CONCURRENT histories: seeded HTTPServer specs with IP filters (generated servers with filters at server/rule/path level, half of them with header conditions; virtual-host servers whose rules carry their own filter; stacked servers whose 2-3 rules all accept the same host, most with a rule-level filter) x cache sizes {1,2,8,64}; out of 12 generated request shapes the 2 are taken on which the generated clients disagree most (some refused 403, some served/404/405 by the cache-less twin); 6 client goroutines, each with its own address (via the connection or X-Real-IP; at least one refused and one admitted client when the shapes allow, in half of the cases two goroutines share the address of a refused client), first learn from the cache-less twin, sequentially, what each of them gets for each shape; then, in two thirds of the cases after one of them has warmed the cache, they all ask the cached server for the same shapes at the same time, 25 rounds each, released together by a barrier; every single response (status, backend, rewritten path) must equal what the cache-less twin gave THAT client; the Go race detector watches the mux meanwhile (mux functions are in the race scope of this property); a run must contain requests served while another was in flight inside the mux, keys on which refused and admitted clients met concurrently with the key already in the cache and with the cache being filled by that very meeting, and such meetings in each of the three server classes; distinct = (spec class, warm-up?, cache size, per-shape mix of cache-less outcomes)")
+	r.Assume("the cache-less twin is a function of the single request (no state between requests), so its sequential answers are the oracle for every concurrent schedule; overlap is observed with an in-flight counter around the call into the mux, no timing bound is used")
+	nSpecs := r.N(120, 4000)
+	const goroutines, rounds = 6, 25
+	sizes := []int{1, 2, 8, 64}
+	missing := map[string]bool{"gone": true}
+	for i := 0; i < nSpecs; i++ {
+		if !r.Mine(i) {
+			continue
+		}
+		rng := r.CaseRand(i)
+		class := i % 3
+		var spec *gSpec
+		switch class {
+		case 0:
+			spec = genSpec(rng, genOpts{headers: i%2 == 1, ipf: true, maxRules: 3, maxPaths: 3})
+			if spec.IPF == nil && rng.Intn(2) == 0 {
+				spec.IPF = genIPF(rng)
+			}
+		case 1:
+			spec = c12VirtualHosts(rng)
+		default:
+			spec = genStackedSpec(rng, genOpts{ipf: true, maxRules: 3, maxPaths: 2})
+		}
+		cached := *spec
+		cached.CacheSize = sizes[rng.Intn(len(sizes))]
+		warm := rng.Intn(3) != 0
+		r.Case(i, map[string]interface{}{"kind": "concurrent-clients", "spec": spec, "cacheSize": cached.CacheSize, "warm_up": warm})
+		m0, err0 := buildMux(spec, &recMapper{missing: missing})
+		m1, err1 := buildMux(&cached, &recMapper{missing: missing})
+		if err0 != nil || err1 != nil {
+			r.Count("spec_rejected", 1)
+			r.Note("spec rejected: %v %v", err0, err1)
+			continue
+		}
+		// candidate shapes, scored by how much the clients disagree on them at the cache-less twin
+		type cand struct {
+			q       gReq
+			refused []string
+			others  []string
+		}
+		var cands []cand
+		panicked := false
+		for k := 0; k < 12 && !panicked; k++ {
+			q := genReq(rng, spec, false)
+			switch class {
+			case 1:
+				q.Host = spec.Rules[rng.Intn(len(spec.Rules))].Host
+				q.Method, q.Path = pick(rng, []string{"GET", "GET", "PATCH"}), pick(rng, []string{"/a", "/a", "/b/x", "/nope"})
+			case 2:
+				q.Host = "a.com"
+			}
+			c := cand{q: q}
+			for _, ip := range genClients {
+				qc := c12WithClient(q, ip, false)
+				var g gOut
+				if r.Guard("C12:nocache", map[string]interface{}{"spec": spec, "req": qc}, func() { g = serve(m0, &qc) }) {
+					panicked = true
+					break
+				}
+				if g.Status == 403 {
+					c.refused = append(c.refused, ip)
+				} else {
+					c.others = append(c.others, ip)
+				}
+			}
+			cands = append(cands, c)
+		}
+		if panicked {
+			continue
+		}
+		score := func(c *cand) int {
+			if len(c.refused) < len(c.others) {
+				return len(c.refused)
+			}
+			return len(c.others)
+		}
+		var shapes []cand
+		for n := 0; n < 2; n++ {
+			best := -1
+			for k := range cands {
+				dup := false
+				for _, sh := range shapes {
+					dup = dup || c12Key(&sh.q) == c12Key(&cands[k].q)
+				}
+				if !dup && (best < 0 || score(&cands[k]) > score(&cands[best])) {
+					best = k
+				}
+			}
+			if best >= 0 {
+				shapes = append(shapes, cands[best])
+			}
+		}
+		// the clients: a refused and an admitted one of the first shape when there are such
+		ips := make([]string, 0, goroutines)
+		if len(shapes[0].refused) > 0 && len(shapes[0].others) > 0 {
+			ips = append(ips, pick(rng, shapes[0].refused), pick(rng, shapes[0].others))
+			if rng.Intn(2) == 0 {
+				ips = append(ips, ips[0]) // a second connection of the refused client
+			}
+		}
+		for len(ips) < goroutines {
+			ips = append(ips, pick(rng, genClients))
+		}
+		rng.Shuffle(len(ips), func(a, b int) { ips[a], ips[b] = ips[b], ips[a] })
+		reqs := make([][]gReq, goroutines)
+		exp := make([][]gOut, goroutines)
+		mixed := make([]bool, len(shapes))
+		for s := range shapes {
+			n403, nOther := 0, 0
+			for g := 0; g < goroutines && !panicked; g++ {
+				q := c12WithClient(shapes[s].q, ips[g], rng.Intn(3) == 0)
+				var o gOut
+				if r.Guard("C12:nocache", map[string]interface{}{"spec": spec, "req": q}, func() { o = serve(m0, &q) }) {
+					panicked = true
+				}
+				reqs[g], exp[g] = append(reqs[g], q), append(exp[g], o)
+				if o.Status == 403 {
+					n403++
+				} else {
+					nOther++
+				}
+			}
+			mixed[s] = n403 > 0 && nOther > 0
+			r.Cover(fmt.Sprintf("concurrent/class%d/warm=%v/size=%d/refused=%d/others=%d", class, warm, cached.CacheSize, n403, nOther))
+		}
+		if panicked {
+			continue
+		}
+		type mismatch struct {
+			g, s, round int
+			got         gOut
+			inFlight    int64
+		}
+		var (
+			mu       sync.Mutex
+			bad      []mismatch
+			nBad     int
+			inFlight int64
+			overlap  int64
+			served   int64
+		)
+		if warm {
+			g := rng.Intn(goroutines)
+			for s := range shapes {
+				var o gOut
+				q := reqs[g][s]
+				if r.Guard("C12:cache", map[string]interface{}{"spec": spec, "cacheSize": cached.CacheSize, "req": q}, func() { o = serve(m1, &q) }) {
+					continue
+				}
+				r.Eval(1)
+				if e := exp[g][s]; o.Status != e.Status || o.Backend != e.Backend || o.Path != e.Path {
+					bad = append(bad, mismatch{g: g, s: s, round: -1, got: o})
+					nBad++
+				}
+			}
+		}
+		cachedBefore := make([]bool, len(shapes))
+		for s := range shapes {
+			cachedBefore[s], _ = muxCacheProbe(m1, &shapes[s].q)
+		}
+		start := make(chan struct{})
+		var wg sync.WaitGroup
+		for g := 0; g < goroutines; g++ {
+			wg.Add(1)
+			go func(g int) {
+				defer wg.Done()
+				<-start
+				for round := 0; round < rounds; round++ {
+					for s := range shapes {
+						q := reqs[g][s]
+						var o gOut
+						n := atomic.AddInt64(&inFlight, 1)
+						p := r.Guard("C12:cache:concurrent", map[string]interface{}{"spec": spec, "cacheSize": cached.CacheSize, "req": q}, func() { o = serve(m1, &q) })
+						atomic.AddInt64(&inFlight, -1)
+						if p {
+							return
+						}
+						atomic.AddInt64(&served, 1)
+						if n > 1 {
+							atomic.AddInt64(&overlap, 1)
+						}
+						if e := exp[g][s]; o.Status != e.Status || o.Backend != e.Backend || o.Path != e.Path {
+							mu.Lock()
+							nBad++
+							if len(bad) < 6 {
+								bad = append(bad, mismatch{g: g, s: s, round: round, got: o, inFlight: n})
+							}
+							mu.Unlock()
+						}
+					}
+				}
+			}(g)
+		}
+		close(start)
+		wg.Wait()
+		r.Eval(int(served))
+		r.Count("concurrent_requests_served", served)
+		r.Count("concurrent_requests_served_while_another_was_in_flight", overlap)
+		for s := range shapes {
+			if !mixed[s] || overlap == 0 {
+				continue
+			}
+			r.Count("keys_asked_concurrently_by_refused_and_admitted_clients", 1)
+			if cachedBefore[s] {
+				r.Count("keys_asked_concurrently_by_refused_and_admitted_clients_key_cached_beforehand", 1)
+			} else {
+				r.Count("keys_asked_concurrently_by_refused_and_admitted_clients_cache_filled_concurrently", 1)
+			}
+			r.Count(fmt.Sprintf("keys_asked_concurrently_by_refused_and_admitted_clients_class_%d", class), 1)
+		}
+		for _, b := range bad {
+			e := exp[b.g][b.s]
+			kind := "other-difference"
+			switch {
+			case b.round < 0:
+				kind = "sequential-warm-up-differs"
+			case e.Status == 403 && b.got.Status != 403:
+				kind = "client-the-uncached-server-refuses-403-got-the-cached-result"
+			case e.Status != 403 && b.got.Status == 403:
+				kind = "client-the-uncached-server-serves-got-403"
+			}
+			all := map[string]gOut{}
+			for g := 0; g < goroutines; g++ {
+				all[fmt.Sprintf("goroutine%d client=%s", g, reqs[g][b.s].clientIP())] = exp[g][b.s]
+			}
+			r.Violation("cache-not-transparent:concurrent-clients:"+kind, map[string]interface{}{
+				"yaml": cached.YAML("verif"), "request": reqs[b.g][b.s], "round": b.round, "warm_up": warm,
+				"without_cache": e, "with_cache": b.got, "in_flight_at_entry": b.inFlight, "mismatches_in_this_case": nBad,
+				"key_cached_before_concurrent_phase": cachedBefore[b.s], "cacheless_answers_of_all_clients_for_this_key": all,
+			})
+		}
+		if i < 2 {
+			r.Sample(map[string]interface{}{"kind": "concurrent-clients", "spec": spec, "cacheSize": cached.CacheSize, "clients": ips, "shapes": []gReq{shapes[0].q}})
+		}
+		m0.close()
+		m1.close()
+	}
+	r.Require("concurrent_requests_served_while_another_was_in_flight", 1)
+	r.Require("keys_asked_concurrently_by_refused_and_admitted_clients_key_cached_beforehand", 1)
+	r.Require("keys_asked_concurrently_by_refused_and_admitted_clients_cache_filled_concurrently", 1)
+	for c := 0; c < 3; c++ {
+		r.Require(fmt.Sprintf("keys_asked_concurrently_by_refused_and_admitted_clients_class_%d", c), 1)
+	}
 }
